@@ -984,12 +984,20 @@ fn gen_doc(rng: &mut Rng, target: RTarget) -> String {
     };
     let n = if target == RTarget::Strict { rng.range(3, 7) } else { n };
     let bad_line = rng.range(1, n);
+    let mid_bom = rng.chance(1, 8);
     let mut s = String::new();
     if rng.chance(1, 12) {
         s.push('\u{feff}');
     }
     for i in 1..=n {
         let key = if target == RTarget::Strict { format!("k{i}") } else { format!("k{i}{}", rng.pick(SUFFIX)) };
+        // a byte-order mark in the middle of the stream (what concatenating files gives): there it is a
+        // character of the line like any other - of the failing line, or of one of its neighbours
+        let key = if target != RTarget::Strict && i > 1 && i.abs_diff(bad_line) <= 2 && mid_bom {
+            format!("{}{key}", '\u{feff}')
+        } else {
+            key
+        };
         let is_bad = i == bad_line;
         match target {
             RTarget::MapVec => {
